@@ -175,6 +175,9 @@ def main():
     if sys.argv[1] == "--inflate64-alone":
         return inflate64_alone(int(sys.argv[2]))
     case = json.loads(sys.argv[1])
+    if case.get("rlimit_data"):
+        # a generous, finite data-segment limit (ulimit -d): the chunk size must stay capped at 128 MB whatever the limit says
+        resource.setrlimit(resource.RLIMIT_DATA, (int(case["rlimit_data"]), int(case["rlimit_data"])))
     sys.path.insert(0, os.environ.get("VERIF_REPO", "/repo"))
     import py7zr
     import py7zr.compressor as C
